@@ -163,6 +163,8 @@ func genCborEnc(tier string, seed uint64) {
 		emit("cborenc %s", strings.Join(toks, ","))
 	}
 	// 7. negative tags / malformed declared lengths (encoder still has to behave like the model)
+	emit("cborenc [-2,]")
+	emit("cborenc {-7,s6b,[-9223372036854775808,u1,],}")
 	emit("cborenc t-1.0")
 	emit("cborenc t-9223372036854775808.u1")
 	emit("cborenc [3,u1,]")
